@@ -494,8 +494,15 @@ impl Engine for ExecEngine {
 
         // ---- reference run ---------------------------------------------------------
         executions += 1;
+        let mut reference_panicked = false;
         let reference = match self.run_once(&loaded, &held, &out_ids, &reference_cfg(), ctx) {
             Ok(r) => r,
+            // C24 still asks the inlined twin: a control-flow program that panics where the inlined program runs
+            Err(p) if prop == "C24" => {
+                ctx.count("probe:reference_panicked");
+                reference_panicked = true;
+                Err(format!("Panic|{}|{}", panic_site(&p), p.message.lines().next().unwrap_or("")))
+            }
             Err(_) => return trivial(ctx, "probe:reference_panicked"),
         };
         match &reference {
@@ -545,7 +552,10 @@ impl Engine for ExecEngine {
                     o.push(l.plain.find_node(&out.name)?);
                 }
                 *executions += 1;
-                self.run_once(&l, &h, &o, &reference_cfg(), ctx).ok()
+                match self.run_once(&l, &h, &o, &reference_cfg(), ctx) {
+                    Ok(r) => Some(r),
+                    Err(p) => Some(Err(format!("Panic|{}|{}", panic_site(&p), p.message.lines().next().unwrap_or("")))),
+                }
             };
             let agree = |a: &RunResult, b: &RunResult| match (a, b) {
                 (Ok(x), Ok(y)) => x.len() == y.len() && x.iter().zip(y).all(|(p, q)| same_exact(p, q)),
@@ -633,7 +643,13 @@ impl Engine for ExecEngine {
                                 (Err(e), Ok(_)) => {
                                     // one finding class: a Loop that runs zero iterations returns no value
                                     // for its scan outputs, so the executor reports an output mismatch
-                                    let key = if zero_trip && e.contains("output-mismatch") { "C24/zero-trip-loop-scan-output-missing".to_string() } else { format!("C24/fails-where-inlined-twin-succeeds/{}", e) };
+                                    let key = if zero_trip && e.contains("output-mismatch") {
+                                        "C24/zero-trip-loop-scan-output-missing".to_string()
+                                    } else if kind_of(e) == "Panic" {
+                                        format!("C24/panics-where-inlined-twin-succeeds/{}", e.splitn(3, '|').nth(1).unwrap_or("?"))
+                                    } else {
+                                        format!("C24/fails-where-inlined-twin-succeeds/{}", e.splitn(3, '|').take(2).collect::<Vec<_>>().join("|"))
+                                    };
                                     violation = Some(Violation::new(
                                         key,
                                         format!("the control-flow program fails with {e} but the same program with the branch/body inlined runs (requested outputs {:?}, optimisation off)", case.outputs.iter().map(|o| &o.name).collect::<Vec<_>>()),
@@ -648,7 +664,7 @@ impl Engine for ExecEngine {
         }
 
         // ---- C02 / C24 (b): strategies against the reference ---------------------------
-        if violation.is_none() && prop != "C25" {
+        if violation.is_none() && prop != "C25" && !reference_panicked {
             for (ri, cfg) in case.runs.iter().enumerate() {
                 executions += 1;
                 if cfg.owned_mask != 0 {
